@@ -5,9 +5,9 @@ CONSTANTS
   AreaFlagsFixed = TRUE
   Rows = {0}
   Cols = {0}
-  Ops = {"+", "-", "*", "/", "^", "&", "<", "<=", "=", ">", ">=", "<>", " ", ",", ":"}
+  Ops = {"+", "&", ":"}
   UnOps = {"+", "-"}
   Depth = 2
-  Profile = "deep"
+  Profile = "deepw"
 INVARIANTS Refines Dump
 CHECK_DEADLOCK FALSE
